@@ -47,6 +47,15 @@ def _withdraw_by_value (repo, dmod, disc, dl, g2, lp, rmev):
     events_all.append([(l, present) for l, flag, present in evs]); finals.append(list(adj))
   return events_all, finals
 
+def _link_names (pin):
+  """the local(s) that hold the Link object built from the probe: the target of `<x> = ...Link(...)` and plain copies of it
+  (the parameter of an inlined helper)"""
+  names = set(['link'])
+  for _i in range(3):
+    for t, v, st, k in q.stores_in(pin.node):
+      if isinstance(t, ast.Name) and v is not None and ((isinstance(v, ast.Call) and call_name(v) == 'Link') or (isinstance(v, ast.Name) and v.id in names)): names.add(t.id)
+  return names
+
 def run (ctx):
   ctx.explanation = EXPLAIN
   ctx.assumptions = ["LLDP TLV classes carry their fields as written by _create_discovery_packet"]
@@ -107,12 +116,12 @@ def run (ctx):
     good = bool(same)
     ctx.ob('R-EFFECT', pin, "the announcement goes together with the insert", good, "insert and raise on the same paths" if good else "link announced but not stored (or vice versa)", (dmod, e.ast), 'D1')
     c = [c for c in q.node_calls(e) if c.args and norm(c.args[0]) == 'LinkEvent'][0]
-    ctx.ob('R-AGREE', pin, "the announced link is the stored one", len(c.args) >= 3 and norm(c.args[2]) == 'link', norm(c)[:70], (dmod, c), 'D1')
+    ctx.ob('R-AGREE', pin, "the announced link is the stored one", len(c.args) >= 3 and norm(c.args[2]) in _link_names(pin), norm(c)[:70], (dmod, c), 'D1')
   for e in anyev:
     if e not in addev: ctx.bad('R-OWN', pin, "probe handling announces only additions", "`%s`" % e.text(60), (dmod, e.ast), 'D1')
   for i in ins:
     st = i.ast
-    ctx.ob('R-AGREE', pin, "adjacency entries are keyed by the link and stamped with the current time (`%s`)" % norm(st)[:40], norm(st.targets[0].slice) == 'link' and norm(st.value) == 'time.time()', norm(st), (dmod, st), 'D1')
+    ctx.ob('R-AGREE', pin, "adjacency entries are keyed by the link and stamped with the current time (`%s`)" % norm(st)[:40], norm(st.targets[0].slice) in _link_names(pin) and norm(st.value) == 'time.time()', norm(st), (dmod, st), 'D1')
   # recurring timers: recoco's Timer stops for good when its callback returns False (selfStoppable defaults to True) - a
   # periodic job of this component must never return it
   def may_return_false (f_, depth=0):
@@ -516,7 +525,13 @@ def run (ctx):
   else:
     ctx.undecided('R-AGREE', ut, "flooding stays enabled on tree ports and on host-facing (edge) ports", "port-mod site / NO_FLOOD constant not found", ut, 'D3')
   tp = q.single_def(ut.node, 'tree_ports')
-  ctx.ob('R-AGREE', ut, "tree ports are the port numbers of the switch's tree links", tp is not None and norm(tp) == '[p[1] for p in ports]', norm(tp) if tp is not None else "?", ut, 'D3')
+  def second_of_each (e):
+    # [x[1] for x in ports], {x[1] for ...}, set(x[1] for x in ports), list(...), tuple(...): the second component of every element, unfiltered
+    if isinstance(e, ast.Call) and call_name(e) in ('set', 'list', 'tuple', 'frozenset') and len(e.args) == 1: e = e.args[0]
+    if not isinstance(e, (ast.ListComp, ast.SetComp, ast.GeneratorExp)) or len(e.generators) != 1: return False
+    gen = e.generators[0]
+    return not gen.ifs and isinstance(gen.target, ast.Name) and norm(gen.iter) == 'ports' and isinstance(e.elt, ast.Subscript) and norm(e.elt.value) == gen.target.id and norm(e.elt.slice) == '1'
+  ctx.ob('R-AGREE', ut, "tree ports are the port numbers of the switch's tree links", (tp is not None and second_of_each(tp)) if tp is not None else None, norm(tp) if tp is not None else "no single definition of tree_ports", ut, 'D3')
   pm = [c for c in calls_in(ut.node) if call_name(c) == 'ofp_port_mod']
   if pm:
     c = pm[0]
